@@ -1,7 +1,8 @@
 (* Extraction entry point for C17 (prefix registration): codec helpers, the registration machine and
    the specification automata. *)
 From NDN Require Import Base.Prelude Base.Sexp Base.Text Model.TlvVar Model.Name Model.Tlv Extract.TlvSexp.
-From NDN Require Import Model.NfdMgmt Model.Registerer Spec.Registration.
+From NDN Require Import Model.NfdMgmt Model.Registerer Spec.Registration Model.NfdEnums Spec.NfdEnums.
+From NDN Require Generated.NfdEnums.
 From Coq Require Extraction ExtrOcamlBasic.
 Local Open Scope N_scope.
 
@@ -133,6 +134,12 @@ Definition s_state (s : state) : sexp :=
 Definition s_triple (t : value * value * list value) : sexp :=
   let '(sc, st, ps) := t in SList [s_value 8 sc; s_value 8 st; s_values ps].
 
+Definition as_ekind (s : sexp) : option ekind :=
+  match as_num s with Some 0 => Some EEnum | Some 1 => Some EFlag | Some 2 => Some EFlagKeep | _ => None end.
+Definition s_ekind (k : ekind) : sexp := SNum (match k with EEnum => 0 | EFlag => 1 | EFlagKeep => 2 end).
+Definition s_efield (f : efield) : sexp :=
+  SList [s_nat (ef_class f); SNum (ef_type f); s_ekind (ef_kind f); s_list SNum (ef_members f)].
+
 Definition run (req : sexp) : sexp :=
   match req with
   | SList [SNum 1; loc; SBytes m; SBytes c; vs] =>
@@ -154,6 +161,22 @@ Definition run (req : sexp) : sexp :=
               Some (SList [s_bool (outcomes_ok v l); s_bool (never_raises l); s_bool (serial_ok l);
                            s_bool (timestamps_ok l); s_bool (percall_ok l); s_bool (autoreg_ok l)]))
   | SList [SNum 9; SBytes c] => s_bool (status_200 (Some c))
+  (* status datasets / management models: the k-th descriptor of nfd_models (order of Generated/Schemas.v) *)
+  | SList [SNum 10; k; vs] =>
+      or_bad (odo i <- as_nat k ;; odo fs <- nth_error nfd_models i ;; odo v <- as_values vs ;;
+              Some (s_res SBytes (dataset_wire fs v)))
+  | SList [SNum 11; k; SBytes w] =>
+      or_bad (odo i <- as_nat k ;; odo fs <- nth_error nfd_models i ;; Some (s_res s_values (dataset_parse fs w)))
+  | SList [SNum 12] => SNum (N.of_nat (length nfd_models))
+  (* enumerated fields: the regenerated table, the typed read / join of the model, the protocol domain of the spec *)
+  | SList [SNum 13] => s_list s_efield Generated.NfdEnums.nfd_enum_fields
+  | SList [SNum 14; k; ms; v] =>
+      or_bad (odo kk <- as_ekind k ;; odo m <- as_list_of as_num ms ;; odo n <- as_num v ;;
+              Some (s_res SNum (typed_read kk m n)))
+  | SList [SNum 15; t; ms] =>
+      or_bad (odo ty <- as_num t ;; odo m <- as_list_of as_num ms ;; Some (SList [SNum 1; s_list SNum (domain ty m)]))
+  | SList [SNum 16; k; a; b] =>
+      or_bad (odo kk <- as_ekind k ;; odo x <- as_num a ;; odo y <- as_num b ;; Some (s_res SNum (join kk x y)))
   | _ => s_bad_request
   end.
 
